@@ -177,6 +177,7 @@ class TraitSpec:
         self.supers = []
         self.trailing_plus = False    # `trait Tr: A + B + {` (legal; what `$($sup +)*` in a macro_rules body produces)
         self.where = []
+        self.ghosts = []      # (position, text) of methods that are configured out in every build
         self.methods = []
         self.async_trait = None       # attribute text or None
         self.extra_items = []         # raw item texts (assoc types, default methods) for pinned cases
@@ -204,18 +205,31 @@ class TraitSpec:
                                         self.generics_text(), (": " + " + ".join(self.supers) + (" +" if self.trailing_plus else "")) if self.supers else "",
                                         (" where " + ", ".join(self.where)) if self.where else "")
         L.append(head)
-        for m in self.methods:
+        for i, m in enumerate(self.methods):
+            L += ["    " + g for pos, g in self.ghosts if pos == i]
             for a in m.attrs:
                 L.append("    " + a)
             L.append("    " + m.trait_sig() + ";")
+        L += ["    " + g for pos, g in self.ghosts if pos >= len(self.methods)]
         for it in self.extra_items:
             L.append("    " + it)
         L.append("}")
         return "\n".join(L)
 
 
-def random_trait(rng, name="Tr", dyn_safe=False, allow_async=True, with_async_trait=False, allow_generic_trait=True, nmethods=None, uninferable=False):
+GHOSTS = ["#[cfg(any())] fn ghost_a(&self, q: NoSuchType) -> i32;",
+          "#[cfg_attr(all(), cfg(any()))] fn ghost_b(&self, x: i32) -> i32;",
+          "#[cfg_attr(not(any()), cfg(not(all())))] #[allow(unused)] fn ghost_c(&self, x: i32, y: i32);",
+          "/// docs\n    #[cfg_attr(all(), allow(unused), cfg(any()))] fn ghost_d(&self) -> i32;"]
+
+
+def random_trait(rng, name="Tr", dyn_safe=False, allow_async=True, with_async_trait=False, allow_generic_trait=True, nmethods=None, uninferable=False,
+                 allow_ghost=False):
     t = TraitSpec(name)
+    if allow_ghost and rng.random() < 0.15:
+        # a method that no build contains (disabled by `cfg`, or by a `cfg` that a `cfg_attr` produces): the trait, the
+        # delegating impl and hand-written impls all have to agree that it does not exist
+        t.ghosts = [(rng.randint(0, 3), rng.choice(GHOSTS)) for _ in range(rng.randint(1, 2))]
     t.vis = rng.choice(["", "pub", "pub(crate)"])
     t.attrs = rng.sample(TRAIT_ATTRS, rng.randint(0, 2)) if rng.random() < 0.5 else []
     if rng.random() < 0.2:
